@@ -17,7 +17,7 @@ Fixpoint sem (st : dataset) (ev : eview) (active : option term) (l : lop) {struc
   | LSelection i c => filter (cond_eval c) (sem st ev active i)
   | LJoin a b => join (sem st ev active a) (sem st ev active b)
   | LSubquery i s => finalize_subquery s (sem st ev active i)
-  | LBind i args v => map (bind_row args v) (sem st ev active i)
+  | LBind i args v => flat_map (ebind args v) (sem st ev active i)
   | LValues vs rows => map (values_row vs) rows
   end.
 
@@ -93,15 +93,15 @@ Fixpoint cert (l : lop) : list var :=
   | LSelection i _ => cert i
   | LJoin a b => cert a ++ cert b
   | LSubquery i s => if simple_sub s then match proj_vars (ss_proj s) with Some vs => inter (cert i) vs | None => cert i end else []
-  | LBind i _ v => v :: cert i
+  | LBind i args v => if forallb (fun x => mem_var x (cert i)) (barg_vars args) then v :: cert i else cert i
   | LValues vs rows =>
       filter (fun v => forallb (fun row => match lookup (values_row vs row) v with Some _ => true | None => false end) rows) vs
   end.
 
 (* ok_in inb l: rows that bind at most the variables of inb may be fed into (any implementation of) l, and the
    result is their join with sem l.  A FILTER / BIND argument variable must be certainly bound by the filtered
-   plan or not bound by any incoming row; a BIND target must not be bound by an incoming row; a sub-select must
-   be order-insensitive. *)
+   plan or not bound by any incoming row (class C01-undef-filter-sibling otherwise); a sub-select must be order-insensitive.
+   (Since 1fdcd07 a BIND joins with an incoming binding of its target, so the target may be bound by an incoming row.) *)
 Fixpoint ok_in (inb : list var) (l : lop) {struct l} : bool :=
   match l with
   | LUnit | LScan _ | LValues _ _ => true
@@ -112,6 +112,5 @@ Fixpoint ok_in (inb : list var) (l : lop) {struct l} : bool :=
   | LJoin a b => ok_in inb a && ok_in (inb ++ poss a) b
   | LSubquery i s => order_free s && ok_in [] i
   | LBind i args v =>
-      ok_in inb i && negb (mem_var v inb)
-      && forallb (fun x => mem_var x (cert i) || negb (mem_var x inb)) (barg_vars args)
+      ok_in inb i && forallb (fun x => mem_var x (cert i) || negb (mem_var x inb)) (barg_vars args)
   end.
